@@ -123,6 +123,18 @@ Proof.
   - apply IHn. intros j Hj; apply H; lia.
 Qed.
 
+Lemma snset_members_from_list : forall base ws n i,
+  (forall j, i <= j < i + Z.of_nat n -> bit_set ws j = true -> base + j < i64_max) ->
+  snset_members_from base ws n i = Ok (set_list base ws i n).
+Proof.
+  intros base ws n; induction n; intros i H; cbn [snset_members_from]; [reflexivity|].
+  unfold set_list; cbn [zseq filter].
+  destruct (bit_set ws i) eqn:E.
+  - destruct (Z.leb_spec i64_max (base + i)) as [Hg|Hg]; [specialize (H i ltac:(lia) E); lia|].
+    rewrite IHn by (intros j Hj; apply H; lia). reflexivity.
+  - apply IHn. intros j Hj; apply H; lia.
+Qed.
+
 Lemma fn_collect_list : forall base ws n i, 0 <= i -> i + Z.of_nat n <= 256 ->
   (forall j, i <= j < i + Z.of_nat n -> bit_set ws j = true -> base + j <= u32_max) ->
   fn_collect base ws n i = Ok (set_list base ws i n).
